@@ -449,7 +449,8 @@ def _run(ctx):
     SHAPES_C = [(), (4,), (2, 1), (0,)]
     SHAPES_R = [(), (5,), (2, 2), (0,)]
     explicit_ok = 0
-    for lmax in LMAXS:
+    # the largest supported degree is exercised too: each `lmax == k` branch of the generated harmonics has its own component table
+    for lmax in LMAXS + ([9, 11] if thorough else [11]):
         for pv, pa in PARITIES:
             st = real.st(lmax, pv, pa)
             dim = st.dim
